@@ -162,7 +162,19 @@ def rich_documents():
         o.bundle("ex:b").entity("ex:e", {"ex:k": 1.5})
         d.update(o)
         return d
-    return [("duplicates-same-attribute", dup_same_attr), ("duplicates-in-bundle", dup_in_bundle),
+    def not_unifiable_relation_first():
+        d = ProvDocument()
+        d.add_namespace("ex", "http://a/")
+        d.generation("ex:e", "ex:a", identifier="ex:g")
+        d.activity("ex:a", T1)
+        d.entity("ex:e")
+        d.activity("ex:a", datetime.datetime(2013, 1, 1))  # conflicting start time: unified() raises
+        b = d.bundle("ex:b1")
+        b.usage("ex:a", "ex:e")
+        b.entity("ex:e")
+        return d
+    return [("not-unifiable-relation-before-elements", not_unifiable_relation_first),
+            ("duplicates-same-attribute", dup_same_attr), ("duplicates-in-bundle", dup_in_bundle),
             ("bundles-attached-with-add_bundle", attached_bundle), ("subtypes-and-convenience-records", subtypes),
             ("updated-from-another-document", two_documents_updated)]
 
@@ -180,6 +192,52 @@ class C13(spec.Spec):
         for k in range(1, n + 1):
             for seq in itertools.product(names, repeat=k):
                 self.run_seq(hist, seq, out)
+
+    # -- exports interleaved with construction ---------------------------------------------------
+    INTERLEAVED = ["provn", "json", "xml", "dot", "graph", "eq", "hash", "unified", "flattened"]
+    FINAL = ["json", "xml", "provn", "get_provn"]
+
+    def interleaved_case(self, hist, out):
+        """an export in the middle of building a document must not influence what is exported at the end"""
+        ops = self._as_ops(hist)
+        n = len(ops)
+        if n < 2:
+            return
+        try:
+            twin = self.fresh(hist).doc
+        except (machine.NotEnabled, machine.NonConformance):
+            return
+        want = {f: call(f, twin) for f in self.FINAL}
+        want_obs = full_obs(twin)
+        for k in range(1, n):
+            for e in self.INTERLEAVED:
+                st = machine.State()
+                try:
+                    for op in ops[:k]:
+                        machine.apply(st, op, self.values)
+                    call(e, st.doc)
+                    for op in ops[k:]:
+                        machine.apply(st, op, self.values)
+                except (machine.NotEnabled, machine.NonConformance):
+                    out.filters["interleaved-history-not-replayable"] += 1
+                    continue
+                except Exception as ex:
+                    out.violation("export-breaks-later-construction", "%s:%s" % (e, type(ex).__name__),
+                                  {"error": repr(ex)[:300], "after_ops": k}, ("seq", self.ops(hist), ["%s@%d" % (e, k)]))
+                    continue
+                out.evaluations += 1
+                out.transitions += 1
+                hh = ("seq", self.ops(hist), ["%s@%d" % (e, k)] + self.FINAL)
+                if full_obs(st.doc) != want_obs:
+                    out.violation("export-mutates-document", "%s:interleaved" % e, {"after_ops": k}, hh)
+                    continue
+                bad = [f for f in self.FINAL if call(f, st.doc) != want[f]]
+                if bad:
+                    out.violation("export-differs-from-twin", "%s-after-interleaved-%s" % (bad[0], e),
+                                  {"after_ops": k, "doc": repr(call(bad[0], st.doc))[:400], "twin": repr(want[bad[0]])[:400]}, hh)
+                else:
+                    out.outcomes["interleaved-ok"] += 1
+                    out.nontrivial += 1
 
     def rich_case(self, item, out):
         name, n = item
@@ -284,6 +342,10 @@ def main(tier, seed):
     out2 = explore.pmap(__name__, tier, {}, "state_case", items, chunk=2)
     out.merge(out2)
     out.evaluations -= len(items)
+    inter = [h for h in hists if len(h) >= 2 and (tier == "thorough" or len(h) <= 3)]
+    out4 = explore.pmap(__name__, tier, {}, "interleaved_case", inter, chunk=4)
+    out4.evaluations -= len(inter)
+    out.merge(out4)
     rich = [(name, 2 if tier == "quick" else 3) for name, _ in rich_documents()]
     out3 = explore.pmap(__name__, tier, {}, "rich_case", rich, chunk=1)
     out3.evaluations -= len(rich)
@@ -304,7 +366,9 @@ def replay(item, tier, seed):
     sp = make_spec(tier, {})
     out = explore.Out()
     h = item.get("history", [])
-    if h and h[0] == "seq":
+    if h and h[0] == "seq" and h[2] and "@" in str(h[2][0]):
+        sp.interleaved_case(tuple(ast.literal_eval(x) for x in h[1]), out)
+    elif h and h[0] == "seq":
         if h[1] and h[1][0] == "rich":
             sp.run_seq(tuple(h[1]), tuple(h[2]), out)
         else:
